@@ -43,6 +43,30 @@ def _assignments_to(func, name):
 
 
 # ---------------------------------------------------------------------- D1
+_SUFFIX = None
+
+
+def _strip_suffix(txt):
+    import re as _re
+    return _re.sub(r"__(gen|inl|call)\d+", "", txt)
+
+
+def _canon_start(func, e):
+    """start node of a traversal, comparable between the two passes: the expression text without the suffixes the
+    inliner adds; a loop variable stands for 'each element of <its iterable's definition>'"""
+    from .common import resolve_local
+    if e is None:
+        return None
+    if isinstance(e, ast.Name):
+        for lp in walk_own(func.node):
+            if isinstance(lp, ast.For) and isinstance(lp.target, ast.Name) and lp.target.id == e.id:
+                it = resolve_local(func, lp.iter) if isinstance(lp.iter, ast.Name) else lp.iter
+                return "each of " + _strip_suffix(norm(it))
+        r = resolve_local(func, e)
+        return _strip_suffix(norm(r))
+    return _strip_suffix(norm(e))
+
+
 def rule_D1(ctx, typer, clsname, nodes_fn="__iter_nodes", edges_fn="__iter_edges"):
     p = ctx.p
     fn = p.func(clsname, nodes_fn)
@@ -54,7 +78,7 @@ def rule_D1(ctx, typer, clsname, nodes_fn="__iter_nodes", edges_fn="__iter_edges
     cn, ce = cn[0], ce[0]
     # the two passes start at the same node
     n += 1
-    if norm(_kwarg(cn, "node", 0)) != norm(_kwarg(ce, "node", 0)):
+    if _canon_start(fn, _kwarg(cn, "node", 0)) != _canon_start(fe, _kwarg(ce, "node", 0)):
         ctx.viol("D1a", fe, ce, "edge pass starts at `%s`, node pass at `%s`" % (norm(_kwarg(ce, "node", 0)), norm(_kwarg(cn, "node", 0))))
     else:
         ctx.inst("D1a", fe, ce, "same start node as the node pass")
@@ -95,6 +119,9 @@ def rule_D1(ctx, typer, clsname, nodes_fn="__iter_nodes", edges_fn="__iter_edges
     m = _kwarg(cn, "maxlevel", 3)
     m2 = _kwarg(ce, "maxlevel", 3)
     n += 1
+    if isinstance(m, ast.Name):
+        from .common import resolve_local
+        m = resolve_local(fn, m)  # e.g. a temporary introduced when a shared traversal helper was inlined
     mtxt = norm(m) if m is not None else None
     ok, why = _is_minus_one_of(fe, m2, mtxt, typer)
     if ok:
